@@ -136,7 +136,12 @@ class Engine:
         if init == 'undef': return
         if rt.k == 'int':
             v = {'true': 1, 'false': 0}.get(init)
-            if v is None: v = self.const_int(init) & mask(rt.a)
+            if v is None:
+                mrel = re.match(r'trunc \(i64 sub \(i64 ptrtoint \((.*?) to i64\), i64 ptrtoint \((.*?) to i64\)\) to i32\)$', init)
+                if mrel:
+                    t1, i1 = M.parse_type(mrel.group(1))
+                    o.cells[off] = (4, RelPtr(self.const_operand(mrel.group(1)[i1:].strip(), t1))); return
+                v = self.const_int(init) & mask(rt.a)
             o.cells[off] = (M.layout(rt)[0], v); return
         if rt.k in ('ptr', 'func'):
             o.cells[off] = (8, self.const_operand(init, rt)); return
@@ -1136,7 +1141,9 @@ class Engine:
         if name.startswith('llvm.load.relative'):
             p = self.use(st, argv[0], 'load.relative base'); off = self.use(st, argv[1], 'load.relative offset')
             q = Ptr(p.obj, self.addoff(p.off, off, 64, 1))
-            rel = self.use(st, self.load(st, q, 4), 'relative table entry')
+            rel = self.load(st, q, 4)
+            if isinstance(rel, RelPtr): fr.env[dst] = rel.target; return
+            rel = self.use(st, rel, 'relative table entry')
             if not is_c(rel): raise Unsupported("symbolic relative table entry")
             fr.env[dst] = self.int2ptr((self.addr(p) + sgn(rel, 32)) & mask(64)); return
         base = name.split('.')[1]
